@@ -47,7 +47,7 @@ func runC01(r *lib.Run) {
 			opt.Unkeyed = i%3 == 0
 			opt.EmptyLeafLists = i%5 == 0
 			opt.OrderedSiblings = true
-	opt.ZeroLenBinary = true
+			opt.ZeroLenBinary = true
 			if skip(cfg, i) {
 				continue
 			}
